@@ -1212,8 +1212,8 @@ def _check_pivot(case, ctx):
             res = FUNCS[fn](V.to_array([spec.cells[r][d] for r in rows], dt))
             exp = cs(res)
             if not R.leq(exp, got, close=True):
-                if len(rows) == 1:
-                    kind = 'single_row'
+                if len(rows) == 1 and not R.leq(exp, cs(spec.cells[rows[0]][d]), close=True):
+                    kind = 'single_row'   # func of the one row differs from the row's cell: copying instead of aggregating shows
                 elif len(dfs) > 1 and len(funcs) == 1 and np.asarray(res).dtype != np.dtype(object if dt == 'object' else dt):
                     kind = 'result_dtype_differs_from_source'
                 else:
